@@ -704,9 +704,8 @@ class Sim:
         self.steps = 0
         self.max_steps = config.get('max_steps', 400000)
         self.aborted = None      # set to a reason when the run is cut short (e.g. request storm)
-        self.storm_key = None
-        self.storm_count = 0
-        self.storm_t0 = 0
+        self.storm_times = {}
+        self.storm = None
         self.wall0 = real_time.time()
         self.wall_cap = config.get('wall_cap', 60.0)
         self.scratch = scratch or tempfile.mkdtemp(prefix='supvsim-')
@@ -1297,17 +1296,20 @@ class Sim:
                 rec['raw'] = params[1]
         else:
             rec['args'] = list(params)
-            # request storm detector: the same request repeated at XML-RPC speed is a livelock of the real code
-            key = (rec['src'], rec['dst'], m)
-            if key == self.storm_key and self.now_us - self.storm_t0 < 2 * US:
-                self.storm_count += 1
-                if self.storm_count > 300 and self.aborted is None:
+            # request storm detector: the same request repeated without bound (a livelock or a crash loop of the
+            # real code) would make the run explode: the run is cut short and flagged
+            if m == 'supvisors.start_args' and self.aborted is None:
+                key = (rec['src'], rec['dst'], rec['args'][0] if rec['args'] else None)
+                times = self.storm_times.setdefault(key, collections.deque())
+                times.append(self.now_us)
+                while times and self.now_us - times[0] > 60 * US:
+                    times.popleft()
+                if len(times) > 150:
                     self.aborted = 'storm'
                     self.storm = {'src': rec['src'], 'dst': rec['dst'], 'method': m, 'args': rec['args'],
-                                  'outcome': rec.get('outcome'), 'fault': rec.get('fault'), 't_us': self.now_us}
+                                  'outcome': rec.get('outcome'), 'fault': rec.get('fault'), 't_us': self.now_us,
+                                  'rate_per_s': round(len(times) / max(1e-6, (self.now_us - times[0]) / US), 1)}
                     self.stats['storm'] += 1
-            elif key != self.storm_key or self.now_us - self.storm_t0 >= 2 * US:
-                self.storm_key, self.storm_count, self.storm_t0 = key, 1, self.now_us
         self.wire.append(rec)
         self.note('rpc', rec['src'], rec['dst'], m, rec.get('header'), rec['outcome'])
         for obs in self.observers:
